@@ -149,6 +149,8 @@ class Engine:
         self.c = contract
         self.registry = registry or {}  # qualname -> Contract (for calls by contract)
         self.mod, self.fn = repo.locate(contract.target)
+        for rel in contract.d.get("modules", []):
+            repo.module(rel)  # classes of other repository modules the function works with (found by simple name)
         self.obligations = []
         self.paths = 0
         self.notes = []
@@ -1192,11 +1194,14 @@ class Engine:
         if (a.ty in num) != (b.ty in num):
             other = b if a.ty in num else a
             if other.ty == "any":
-                if self.st.spec:
-                    raise OutOfSubset("spec compares an untyped value with a number (use isnone(x) / bool(x), or compare with a boxed value)")
-                # code: an untyped value equals a number iff it is that boxed number
+                # an untyped value equals a number iff it is that boxed number (injective embeddings any_of_int / any_of_real / py:True|False)
                 numv = a if a.ty in num else b
-                return other.z == self.coerce(V(numv.ty, numv.z), "any").z if numv.none is None else z3.BoolVal(False)
+                boxed = other.z == self.coerce(V(numv.ty, numv.z), "any").z
+                if numv.none is None:
+                    return boxed
+                if self.st.spec:
+                    return z3.Or(z3.And(numv.none, other.z == 0), z3.And(z3.Not(numv.none), boxed))
+                return z3.BoolVal(False)
             return z3.BoolVal(False)
         if isinstance(a.ty, tuple) and a.ty[0] == "tuple" and isinstance(b.ty, tuple) and b.ty[0] == "tuple":
             ai, bi_ = self.tuple_items(a), self.tuple_items(b)
@@ -1419,7 +1424,7 @@ class Engine:
                     if isinstance(x.func, ast.Attribute) and x.func.attr in ("append", "extend", "get", "pop", "items", "keys", "values", "add", "update", "sort", "join", "format", "startswith", "endswith", "lower", "upper", "strip", "split"):
                         continue
                     return True
-                if d.startswith(self.bi.LOG_SINK_PREFIXES) or d in self.bi.LOG_SINK_NAMES:
+                if d not in self.c.externals and (d.startswith(self.bi.LOG_SINK_PREFIXES) or d in self.bi.LOG_SINK_NAMES):
                     continue
                 if d in self.c.externals:
                     if self.c.externals[d].get("event"):
